@@ -69,13 +69,13 @@ impl Property for C10 {
     fn cases(&self, tier: Tier) -> u64 {
         match tier {
             Tier::Quick => 12_000,
-            Tier::Thorough => 500_000,
+            Tier::Thorough => 10_000_000,
         }
     }
     fn min_nontrivial(&self, tier: Tier) -> u64 {
         match tier {
             Tier::Quick => 2_500,
-            Tier::Thorough => 100_000,
+            Tier::Thorough => 2_000_000,
         }
     }
     fn rule(&self) -> &'static str {
